@@ -24,7 +24,7 @@
 EXTENDS Naturals, Sequences, FiniteSets, TLC
 
 ParamLocs == {"path", "query", "header", "cookie"}
-BodyLocs  == {"form", "multipart"}
+BodyLocs  == {"form", "multipart", "json"}       \* "json": the value IS the application/json request body (json=<transformed value>)
 Locs   == ParamLocs \cup BodyLocs
 Kinds  == {"str", "int", "float", "bool", "enum", "enumi", "date", "datetime", "uuid", "list", "listint", "listenum",
            "null", "any", "const", "uis", "model"}
@@ -36,7 +36,8 @@ BaseAllowed(kind) ==
   ELSE IF kind = "null" THEN {"query", "header", "cookie"}
   ELSE {"path", "query", "cookie"}
 IsUnion(p) == p.kind = "uis" \/ (p.nul /\ p.kind # "null")
-Accepted(p) == IF p.loc \in BodyLocs THEN ~(p.kind = "null" /\ p.nul)              \* a property of a body model: every kind
+Accepted(p) == IF p.loc = "json" THEN p.req /\ ~(p.kind = "null" /\ p.nul)                 \* a request body is always a mandatory argument
+               ELSE IF p.loc \in BodyLocs THEN ~(p.kind = "null" /\ p.nul)              \* a property of a body model: every kind
                ELSE /\ p.loc \in (IF p.nul THEN BaseAllowed(p.kind) \cap BaseAllowed("null") ELSE BaseAllowed(p.kind))
                     /\ (p.loc = "path" => p.req)
 
@@ -88,6 +89,7 @@ Transform ==
   /\ stage = "guarded" /\ stage' = "transformed"
   /\ v' = CASE v = "skipped" -> "skipped"
             [] p.loc \in {"header", "cookie"} -> (IF HasHeaderTransform(p) THEN "text" ELSE v)
+            [] p.loc = "json" -> QueryJson(v)                                                           \* the property's `transform` (to_dict / isoformat / .value ...)
             [] p.loc = "form" -> QueryJson(v)                                                           \* to_dict(): the JSON forms, a model stays a dict
             [] p.loc = "multipart" -> MultipartForm(v)
             [] p.loc = "query" -> (IF p.kind = "model" /\ ~IsUnion(p) /\ v = "model" THEN "spread"     \* json_is_dict: params.update(to_dict())
@@ -104,6 +106,8 @@ Encode ==
         [] p.loc = "cookie" -> (IF v \in {"text", "str", "enumS"} THEN Placed("canon")
                                 ELSE IF v = "none" THEN Placed("bare")                                 \* a cookie without a value
                                 ELSE Raise)                                                            \* http.cookiejar wants a string
+        [] p.loc = "json"   -> (IF v = "none" THEN NotSent                                              \* httpx reads json=None as "no JSON body": a null body is not sent
+                                ELSE Placed("json"))                                                   \* httpx serialises what the transform produced
         [] p.loc = "form"   -> (IF v \in {"unset", "emptylist"} THEN NotSent                             \* the key is left out / no item, no key
                                 ELSE IF v = "none" THEN Placed("empty")                                \* httpx writes None as an empty value
                                 ELSE IF v = "dict" THEN Placed("pyrepr")                               \* str(dict) of a nested model
@@ -146,7 +150,7 @@ W2 == (Done /\ Judged /\ ~KnownRejected /\ ~KnownGarbage /\ a \notin {"U", "N"} 
 \* W3 (C10): an omitted optional argument is not transmitted; None is never transmitted as a value in the query
 W3 == Done => /\ (a = "U" => out = NotSent)
               /\ ((a = "N" /\ p.loc = "query") => out = NotSent)
-              /\ ((a = "N" /\ p.loc \in BodyLocs /\ Judged /\ ~KnownRejected) => out.t = "placed")        \* a body property that is None is transmitted (as empty / "None"), not dropped
+              /\ ((a = "N" /\ p.loc \in {"form", "multipart"} /\ Judged /\ ~KnownRejected) => out.t = "placed")        \* a body property that is None is transmitted (as empty / "None"), not dropped
 KnownExact == Done => /\ (KnownRejected => out.t = "raise")
                       /\ (KnownGarbage /\ ~KnownRejected /\ a \notin {"U", "N"} => out = Placed("pyrepr"))
 Terminates == <>Done
